@@ -643,7 +643,12 @@ func sprintfParts(format string, args []*Sym) ([]*Sym, bool) {
 			parts = append(parts, lit(cur.String()))
 			cur.Reset()
 		}
-		parts = append(parts, args[ai])
+		if format[j] == 'x' || format[j] == 'X' {
+			// hexadecimal rendering of the argument (of its bytes, for a string or byte slice)
+			parts = append(parts, &Sym{Op: "call", Name: "fmt%x", Args: []*Sym{args[ai]}})
+		} else {
+			parts = append(parts, args[ai])
+		}
 		ai++
 		i = j
 	}
